@@ -751,6 +751,16 @@ _CORES = {
     "frame": (_FRAME_CORE, "frame core: a frame change of a state (or of its covariance) runs Frame.transform, the centre and orientation chains and the Earth-rotation models",
               ["C02", "C04", "C06", "C07", "C08", "C09", "C10", "C11", "C12", "C13", "C14", "C15", "C17", "C18", "C19", "C20"]),
 }
+# wave p (the third "outside the anchored files" wave, 17 of 20 caught on receipt) left two holes of the same kind:
+#  - a pickled state carries its Date, so the Date's own pickling hooks decide whether "pickling preserves values and metadata"
+#    (C15) - the time core is attached to C15 as well;
+#  - the moving origin and axes of an orbit-attached or body-centred frame are whatever `propagate(date)` of the reference
+#    orbit / of the body's propagator returns: the offset providers are a fourth core of the frame properties C02 and C20.
+_CORES["time"][2].append("C15")
+_OFFSET_CORE = list(_PROPAGATORS) + [("beyond/env/solarsystem.py", ["*"]), ("beyond/env/jpl.py", ["JplPropagator.*", "Bsp.*", "get_orbit", "get_frame", "create_frames"]),
+                                      ("beyond/propagators/base.py", ["*"])]
+_CORES["offset"] = (_OFFSET_CORE, "offset core: the moving origin (and local axes) of an orbit-attached or body-centred frame is what `propagate(date)` of its reference orbit / body propagator returns; `Center._to_parent` and `LocalOrbitalOrientation._to_parent` call it on every conversion",
+                    ["C02", "C20"])
 for _name, (_files, _why, _props) in _CORES.items():
     for _p in _props:
         DEPS.setdefault(_p, []).extend((x, _why) for x in _files)
